@@ -77,8 +77,15 @@ def gen_dataset_spec(rng, cfg, dims_labels=None, nvars=None, names=None):
         for d in vd:
             if d not in used:
                 used.append(d)
-    return {"dims": {d: dims[d] for d in used}, "axattrs": {d: gen_meta(rng, cfg["meta_density"] * 0.6) for d in used},
+    spec = {"dims": {d: dims[d] for d in used}, "axattrs": {d: gen_meta(rng, cfg["meta_density"] * 0.6) for d in used},
             "vars": vs, "attrs": gen_meta(rng, cfg["meta_density"])}
+    spare = [d for d in dims if d not in used]
+    if spare and not dims_labels and rng.random() < 0.15:
+        d = rng.choice(spare)
+        spec["extra_axes"] = {d: dims[d]}       # an axis appended to the dataset that no variable uses
+    if rng.random() < 0.2:
+        spec["nc_kwargs"] = {"zlib": True, "complevel": rng.randint(1, 9)}
+    return spec
 
 
 def _poke(vals, x):
@@ -100,6 +107,10 @@ def build_dataset(spec):
     ds = Dataset()
     for vs in spec["vars"]:
         ds[vs["name"]] = var_array(vs, spec["dims"])
+    from dimarray import Axis
+    for d, labs in spec.get("extra_axes", {}).items():
+        if d not in ds.dims:
+            ds.axes.append(Axis(V.label_array(labs), d))
     for d, aa in spec.get("axattrs", {}).items():
         if d in ds.dims:
             ds.axes[d].attrs.update(V._deepcopy_json(aa))
